@@ -531,10 +531,11 @@ def encode_core(ap, obs_end):
     return ("alap " if backward else "sched ") + " ".join(str(x) for x in out), order, [fid(p) for p, _ in rleaf]
 
 
-def model_results(ap, obs, line_order):
+def model_results(ap, obs, line_order, out=None):
     """run the extracted model; returns ({task: (sched, start_s, end_s)}, set of (task, res, slot))"""
     line, order, rnames = line_order
-    out = common.run_driver("scheddriver", [line])[0]
+    if out is None:
+        out = common.run_driver("scheddriver", [line])[0]
     if out.startswith("ERROR") or "|" not in out:
         return None, out
     left, right = out.split("|")
@@ -554,14 +555,15 @@ def model_results(ap, obs, line_order):
     return res, bk
 
 
-def compare_model(ap, obs):
+def compare_model(ap, obs, enc=None, out=None):
     """disagreements between the extracted Coq model and the implementation on one core project"""
     sc = obs["scenarios"][0]
-    try:
-        enc = encode_core(ap, obs["end"])
-    except NotCore as ex:
-        return None, str(ex)
-    res, bk = model_results(ap, obs, enc)
+    if enc is None:
+        try:
+            enc = encode_core(ap, obs["end"])
+        except NotCore as ex:
+            return None, str(ex)
+    res, bk = model_results(ap, obs, enc, out)
     if res is None:
         return [{"what": "model driver failed", "detail": bk}], None
     dis = []
@@ -682,15 +684,18 @@ def encode_sd(ap, obs_end):
     return ("sdt " if teams else "sd ") + " ".join(str(x) for x in out), order, [fid(p) for p, _ in rleaf]
 
 
-def compare_sd(ap, obs):
+def compare_sd(ap, obs, enc=None, out=None):
     """disagreements between the extracted sub-slot model and the implementation (dates to the second, ledger
     seconds to the millisecond); (None, why) outside the dialect"""
     sc = obs["scenarios"][0]
-    try:
-        line, order, rnames = encode_sd(ap, obs["end"])
-    except NotCore as ex:
-        return None, str(ex)
-    out = common.run_driver("scheddriver", [line])[0]
+    if enc is None:
+        try:
+            enc = encode_sd(ap, obs["end"])
+        except NotCore as ex:
+            return None, str(ex)
+    line, order, rnames = enc
+    if out is None:
+        out = common.run_driver("scheddriver", [line])[0]
     if out.startswith("ERROR") or "|" not in out:
         return [{"what": "model driver failed", "detail": out[:300]}], None
     left, right = out.split("|")
@@ -718,3 +723,28 @@ def compare_sd(ap, obs):
         if abs(ml.get(k, 0.0) - il.get(k, 0.0)) > 1e-3:
             dis.append({"what": "ledger seconds differ (sub-slot model)", "task_resource_slot": list(k), "model": ml.get(k), "impl": il.get(k)})
     return dis, None
+
+
+def compare_many(pairs):
+    """model-vs-implementation comparison of many (abstract project, observation) pairs: slot-granularity model
+    (forward or backward) where the project is in its dialect, else the second-granularity model; the driver runs
+    are spread over several processes.  Returns [(disagreements | None, why | None, kind)]"""
+    encs = []
+    for ap, obs in pairs:
+        try:
+            encs.append(("slot", encode_core(ap, obs["end"])))
+            continue
+        except NotCore as ex:
+            why = str(ex)
+        try:
+            encs.append(("second", encode_sd(ap, obs["end"])))
+        except NotCore as ex2:
+            encs.append((None, why + " / " + str(ex2)))
+    idx = [i for i, (k, _) in enumerate(encs) if k]
+    outs = common.run_driver_parallel("scheddriver", [encs[i][1][0] for i in idx])
+    res = [(None, e[1], None) if e[0] is None else None for e in encs]
+    for i, o in zip(idx, outs):
+        (ap, obs), (kind, enc) = pairs[i], encs[i]
+        d, why = (compare_model if kind == "slot" else compare_sd)(ap, obs, enc, o)
+        res[i] = (d, why, kind)
+    return res
